@@ -395,6 +395,44 @@ pub fn placement_crowd() -> impl Strategy<Value = PlacementRecipe> + Clone {
     })
 }
 
+/// G3 fan: the side to move has five to nine queens (and a rook or two) on an open board while the
+/// enemy king hides in a corner behind two of its own pawns and a piece of the mover (so that no line
+/// reaches it): 120 to 218 legal moves, the shape of the known move-count records.
+pub fn placement_fan() -> impl Strategy<Value = PlacementRecipe> + Clone {
+    (any::<bool>(), any::<bool>(), 0u8..64, proptest::collection::vec((prop_oneof![5 => Just(4u8), 1 => Just(3u8)], 0u8..64), 5..11), prop_oneof![Just(1u8), Just(2u8)]).prop_map(|(white_moves, mirror_files, mk, heavy, blocker)| {
+        // built for White to move against a black king on a1, then mirrored
+        let tr = |s: u8| -> u8 {
+            let (mut r, mut f) = (s / 8, s % 8);
+            if mirror_files {
+                f = 7 - f;
+            }
+            if !white_moves {
+                r = 7 - r;
+            }
+            r * 8 + f
+        };
+        let mut men: Vec<(u8, bool, u8)> = vec![(0, !white_moves, tr(8)), (0, !white_moves, tr(9)), (blocker, white_moves, tr(1))];
+        // NOTE: pawns of the hiding side stand on their seventh rank from their own point of view
+        let (mut q, mut r) = (0, 0);
+        for (k, s) in heavy {
+            if [0u8, 1, 8, 9].contains(&s) {
+                continue;
+            }
+            if k == 4 && q < 9 {
+                q += 1;
+                men.push((4, white_moves, tr(s)));
+            } else if k == 3 && r < 2 {
+                r += 1;
+                men.push((3, white_moves, tr(s)));
+            }
+        }
+        let hk = tr(0);
+        let mover_king = if [0u8, 1, 8, 9, 2, 10, 16, 17, 18].contains(&mk) { tr(36) } else { tr(mk) };
+        let (wk, bk) = if white_moves { (mover_king, hk) } else { (hk, mover_king) };
+        PlacementRecipe { wk, bk, men, white_to_move: white_moves, rights: 0, ep: 0 }
+    })
+}
+
 pub fn recipe_json(r: &PlacementRecipe) -> Value {
     match build_placement(r) {
         Some(p) => json!({"fen": p.fen()}),
